@@ -16,8 +16,17 @@ def run_persist_model(workdir, strategy, atomic, bounds):
     return c.tlc("Persist.tla", cfg, workdir, workers=4, heap="4g", timeout=1800)
 
 
+def run_snap_model(workdir, state_first, bounds):
+    cfg = os.path.join(workdir, "snapfiles-%s.cfg" % state_first)
+    with open(cfg, "w") as f:
+        f.write("SPECIFICATION Spec\nCONSTANTS\n  MaxVersion = %d\n  MaxSnaps = %d\n  StateFirst = %s\n"
+                "INVARIANTS TypeOK SnapAtomic LastSaveOK\nCHECK_DEADLOCK FALSE\n" % (bounds[0], bounds[1], state_first))
+    return c.tlc("SnapFiles.tla", cfg, workdir, workers=2, heap="2g", timeout=600)
+
+
 class PersistCheck:
-    def __init__(self, jobs, bounds, own_findings, assumptions, trace_spec="Trace_Persist"):
+    def __init__(self, jobs, bounds, own_findings, assumptions, trace_spec="Trace_Persist", model="persist"):
+        self.model = model
         self.jobs = jobs                # tier -> list of driver arg lists
         self.bounds = bounds            # tier -> (MaxCmds, MaxRewrites, MaxCrashes)
         self.own = own_findings
@@ -38,21 +47,32 @@ class PersistCheck:
     def _run(self, prop, tier, work, t0):
         binary = c.build_harness()
         devs = c.open_deviations(prop)
-        # 1. the file-operation model: the reference design keeps ImageOK, the code's step structure does not
+        # 1. the file-operation model: the reference design keeps the invariant, the defective step order does not
         states = trans = 0
         predicted = []
-        for strategy in ("always", "everysec", "no"):
-            r = run_persist_model(work, strategy, "TRUE", self.bounds[tier])
+        if self.model == "persist":
+            for strategy in ("always", "everysec", "no"):
+                r = run_persist_model(work, strategy, "TRUE", self.bounds[tier])
+                if not r.ok:
+                    raise c.Infra("Persist.tla (reference design, %s) did not pass:\n%s" % (strategy, r.out[-3000:]))
+                states += r.distinct
+                trans += r.generated
+            r = run_persist_model(work, "always", "FALSE", self.bounds[tier])
+            if r.ok:
+                raise c.Infra("Persist.tla with the code's non-atomic rewrite unexpectedly satisfies ImageOK")
+            predicted.append("Persist.tla (Atomic = FALSE): ImageOK violated, as observed on the real files (RewriteNotAtomic)")
+        else:
+            r = run_snap_model(work, "TRUE", self.bounds[tier])
             if not r.ok:
-                raise c.Infra("Persist.tla (reference design, %s) did not pass:\n%s" % (strategy, r.out[-3000:]))
+                raise c.Infra("SnapFiles.tla (state file first) did not pass:\n%s" % r.out[-3000:])
             states += r.distinct
             trans += r.generated
-        r = run_persist_model(work, "always", "FALSE", self.bounds[tier])
-        if r.ok:
-            raise c.Infra("Persist.tla with the code's non-atomic rewrite unexpectedly satisfies ImageOK")
-        predicted.append("Persist.tla (Atomic = FALSE): ImageOK violated, as observed on the real files (RewriteNotAtomic)")
+            r = run_snap_model(work, "FALSE", self.bounds[tier])
+            if r.ok:
+                raise c.Infra("SnapFiles.tla with the original operation order unexpectedly satisfies SnapAtomic")
+            predicted.append("SnapFiles.tla (StateFirst = FALSE, the order before the repair): SnapAtomic violated")
 
-        total = {"workloads": 0, "commands": 0, "images": 0, "again": 0, "interleaved": 0, "skipped": 0, "generated": 0}
+        total = {"workloads": 0, "commands": 0, "images": 0, "again": 0, "interleaved": 0, "saves": 0, "skipped": 0, "generated": 0}
         used, examples, samples = {}, {}, []
         violation = None
 
@@ -70,7 +90,7 @@ class PersistCheck:
         with ThreadPoolExecutor(max_workers=3) as ex:
             results = list(ex.map(one, list(enumerate(self.jobs[tier]))))
         for di, dargs, st, r in results:
-            for k in ("workloads", "commands", "images", "again", "interleaved"):
+            for k in ("workloads", "commands", "images", "again", "interleaved", "saves"):
                 total[k] += st.get(k, 0)
             total["skipped"] += r["skipped"]
             total["generated"] += r["generated"]
@@ -106,10 +126,10 @@ class PersistCheck:
                     "server, or one durable-again continuation (write, stop, restore); images are distinct by content hash, "
                     "crash point and acknowledged count",
             "workloads": total["workloads"], "commands": total["commands"], "crash_images_restored": total["images"],
-            "durable_again_continuations": total["again"], "writes_interleaved_into_rewrite": total["interleaved"],
+            "durable_again_continuations": total["again"], "save_attempts": total["saves"], "writes_interleaved_into_rewrite": total["interleaved"],
             "steps_outside_model_skipped": total["skipped"], "deviations_used": used,
             "model_predictions": predicted, "exhaustive": False,
-            "checker_cmd": "tlc Persist.tla (3 strategies, reference design; code variant expected to violate ImageOK) + tlc %s.tla per trace chunk" % self.trace_spec,
+            "checker_cmd": "tlc %s (reference design must pass; defective step order expected to violate its invariant) + tlc %s.tla per trace chunk" % ("Persist.tla" if self.model == "persist" else "SnapFiles.tla", self.trace_spec),
         }
         c.write_evidence(prop, tier, "model_checking", cov, self.assumptions, time.time() - t0, 1 if violation else 0,
                          extra={"violation": violation} if violation else None)
@@ -119,7 +139,7 @@ class PersistCheck:
             print("VIOLATION property=%s replay=%s" % (prop, violation["replay"]))
             return 1
         print("OK %s %s: %d workloads, %d commands, %d crash images and %d durable-again continuations judged by %s; "
-              "Persist.tla %d states / %d transitions" % (prop, tier, total["workloads"], total["commands"], total["images"],
+              "file-operation model %d states / %d transitions" % (prop, tier, total["workloads"], total["commands"], total["images"],
                                                            total["again"], self.trace_spec, states, trans))
         return 0
 
